@@ -444,7 +444,14 @@ pub fn observe(dir: &Path, cfg: &Cfg, link: Option<&PathBuf>, raw: bool) -> Valu
         },
         None => (String::new(), false),
     };
-    json!({"files": files, "foreign": foreign, "link": lk, "link_ok": lk_ok, "anyids": anyids})
+    // the structural name of the link's target (whether or not the target exists)
+    let linkn = if lk.is_empty() {
+        json!([])
+    } else {
+        let pn = parse_name(cfg, &lk);
+        if pn.fam { json!([pn.k, pn.i, pn.r, pn.z]) } else { json!(["foreign", -1, -1, false]) }
+    };
+    json!({"files": files, "foreign": foreign, "link": lk, "link_ok": lk_ok, "linkn": linkn, "anyids": anyids})
 }
 
 pub fn hex(b: &[u8]) -> String {
